@@ -185,7 +185,7 @@ func c02Run(c *mc.Ctx) {
 			}
 		}
 	}
-	c.Done(fmt.Sprintf("all %d value trees (11x11 maps, 11 list/set element types, sizes 0..3/many, 121 struct field pairs, chains to depth 63, strings to 9000 bytes) x 4 trailers x 9 skipper/reader combinations x %d fragmentation policies", len(trees), len(envs)))
+	c.Done(fmt.Sprintf("all %d value trees (11x11 maps, 11 list/set element types, sizes 0..3/many, 121 struct field pairs, chains to depth 63, strings to 9000 bytes) x 4 trailers x 11 skipper/reader combinations x %d fragmentation policies", len(trees), len(envs)))
 	// per-Read deviations (1 byte, empty read, half, all-with-EOF) on the first 24 reads, values <= 64 bytes
 	bound := 1
 	if th {
@@ -249,7 +249,7 @@ func c02Run(c *mc.Ctx) {
 func init() {
 	Register(&Check{
 		ID: "C02", Level: "exploration",
-		Rule:        "every typed value tree of the generator (all 121 map key/value type pairs x sizes 0..2, all 11 list/set element types x sizes 0..3, 121 ordered struct field pairs, level-2 'many' containers, nesting chains 1..63 for every container kind with fixed and string leaves, strings from 0 to 9000 bytes) x 4 trailers x 9 skipper/reader combinations x every fragmentation policy (chunk size, zero reads, final data with or before EOF); distinct = distinct (encoding,type)",
+		Rule:        "every typed value tree of the generator (all 121 map key/value type pairs x sizes 0..2, all 11 list/set element types x sizes 0..3, 121 ordered struct field pairs, level-2 'many' containers, nesting chains 1..63 for every container kind with fixed and string leaves, strings from 0 to 9000 bytes) x 4 trailers x 11 skipper/reader combinations x every fragmentation policy (chunk size, zero reads, final data with or before EOF); distinct = distinct (encoding,type)",
 		Assumptions: []string{"quick tier: 1..3-byte chunk policies only on values <= 600 bytes; thorough: all"},
 		Run:         c02Run,
 		Replay: func(c *mc.Ctx, sub string, raw json.RawMessage) {
